@@ -111,12 +111,16 @@ class World(object):
         self.nticks = 0
         self.hang_guard = hang_guard
         W.reset()
+        W.local_hosts = c.get('hosts')                 # what getHost() reports, per connection (C05)
+        W.sockopt_fail = c.get('sockopt_fail')         # connections whose TCP-MD5 socket option call fails (C12)
         args = ['--bgp-local_as=%d' % c['las'], '--bgp-remote_as=%d' % c['ras'],
                 '--bgp-remote_addr=' + PEER, '--bgp-local_addr=' + LOCAL,
                 '--time-connect_retry_time=%d' % c['crt'], '--time-hold_time=%d' % c['hold'],
                 '--time-idle_hold_time=%d' % c['idle'], '--time-bgp_peer_call_later_time=0',
                 '--rest-username=' + c['user'], '--rest-password=' + c['password'],
                 '--bgp-afi_safi=' + ','.join(c['afi_safi'])]
+        if c.get('md5'):
+            args.append('--bgp-md5=' + c['md5'])
         if c['ka'] is not None:
             args.append('--time-keep_alive_time=%d' % c['ka'])
         if c['rib']:
@@ -129,6 +133,9 @@ class World(object):
             CONF.clear_override(name, group='bgp')
             if c['caps'] is not None:
                 CONF.set_override(name, name in c['caps'], group='bgp')
+        CONF.clear_override('add_path', group='bgp')
+        if c.get('add_path'):
+            CONF.set_override('add_path', c['add_path'], group='bgp')
         CONF.set_override('write_disk', c['handler'] == 'default', group='message')
         CONF.set_override('write_keepalive', bool(c['write_keepalive']), group='message')
         CONF.set_override('write_msg_max_size', c['max_size_mb'], group='message')
@@ -399,7 +406,7 @@ class World(object):
             conns[idx] = {'cs': cs, 'to': to}
             if cs == 'closing' and self.prev_cs.get(idx) != 'closing':
                 closes.append(idx)
-            if k.transport is not None:
+            if k.transport is not None and hasattr(k.transport, 'written'):
                 pos = self.wpos.get(idx, 0)
                 wr = k.transport.written
                 if len(wr) > pos:
